@@ -151,7 +151,9 @@ fn gen_store_ops<T: HLabel>(rng: &mut Rng, len: usize) -> Vec<Op<T>> {
     // few labels most of the time (collisions, re-insertions); sometimes a larger universe so that
     // per-argument attack lists grow long (with tombstones left by removed neighbours)
     let k = if len > 100 { rng.range(8, 14) } else { rng.range(3, 6) };
-    let universe: Vec<T> = (0..k).map(T::nth).collect();
+    // one history in sixteen runs over unusual labels (empty / blank / syntax-like / very long strings,
+    // 0 and huge numbers): the store accepts any label
+    let universe: Vec<T> = if rng.pct(6) { (0..k).map(T::odd).collect() } else { (0..k).map(T::nth).collect() };
     let ghost = T::nth(77);
     let mut ops = Vec::new();
     // a light shadow to bias generation towards interesting states
@@ -314,8 +316,65 @@ fn gen_store_ops_churn<T: HLabel>(rng: &mut Rng) -> Vec<Op<T>> {
     ops
 }
 
+/// Argument churn: 200-600 operations, most of them creating and removing arguments (dozens of
+/// removals, ids growing far beyond the number of live arguments), a few attacks among the survivors.
+fn gen_store_ops_arg_churn<T: HLabel>(rng: &mut Rng) -> Vec<Op<T>> {
+    let len = rng.range(200, 600);
+    let mut next = 0usize;
+    let mut live: Vec<T> = Vec::new();
+    let mut gone: Vec<T> = Vec::new();
+    let mut ops: Vec<Op<T>> = Vec::new();
+    while ops.len() < len {
+        match rng.weighted(&[9, 9, 3, 1]) {
+            0 => {
+                let l = if !gone.is_empty() && rng.pct(30) {
+                    let i = rng.below(gone.len());
+                    gone.swap_remove(i)
+                } else {
+                    next += 1;
+                    T::nth(next - 1)
+                };
+                if !live.contains(&l) {
+                    live.push(l.clone());
+                }
+                ops.push(Op::AddArg(l));
+            }
+            1 => {
+                if live.len() <= 2 {
+                    continue;
+                }
+                // mostly the oldest survivors go, so that live arguments have larger ids than removed ones
+                let i = if rng.pct(70) { rng.below(live.len().min(3)) } else { rng.below(live.len()) };
+                let l = live.remove(i);
+                gone.push(l.clone());
+                ops.push(Op::DelArg(l));
+            }
+            2 => {
+                if live.is_empty() {
+                    continue;
+                }
+                let a = live[rng.below(live.len())].clone();
+                let b = live[rng.below(live.len())].clone();
+                ops.push(Op::AddAtt(a, b));
+            }
+            _ => {
+                if live.is_empty() {
+                    continue;
+                }
+                let a = live[rng.below(live.len())].clone();
+                let b = live[rng.below(live.len())].clone();
+                ops.push(Op::DelAtt(a, b));
+            }
+        }
+    }
+    ops
+}
+
 fn gen_store_history<T: HLabel>(ctx: &mut Ctx, rng: &mut Rng, len: usize, hub: bool, churn: bool, start: u8) -> Vec<Op<T>> {
-    let mut ops = if hub {
+    let mut ops = if churn && rng.pct(40) {
+        ctx.count("histories/argument-churn-shape");
+        gen_store_ops_arg_churn::<T>(rng)
+    } else if hub {
         ctx.count("histories/hub-shape");
         gen_store_ops_hub::<T>(rng, len.max(80))
     } else if churn {
@@ -842,7 +901,23 @@ fn strict_uint(w: &str) -> Option<usize> {
     w.parse().ok()
 }
 
+/// Does any line, however liberally it is split, declare more arguments than this check allocates?
+/// (The strict parser below may give up on a text for another reason before it looks at the number.)
+fn declares_too_big(bytes: &[u8]) -> bool {
+    let text = String::from_utf8_lossy(bytes);
+    text.split(['\n', '\r']).any(|l| {
+        let w: Vec<&str> = l.split_whitespace().collect();
+        w.len() >= 3 && w[0] == "p" && w[1] == "af" && {
+            let t = w[2].trim_start_matches(['+', '-']);
+            !t.is_empty() && t.bytes().all(|b| b.is_ascii_digit()) && (t.trim_start_matches('0').len() > 9 || t.parse::<usize>().map(|k| k > MAX_DECLARED).unwrap_or(true))
+        }
+    })
+}
+
 pub fn ref_parse_iccma(bytes: &[u8]) -> RefParse {
+    if declares_too_big(bytes) {
+        return RefParse::TooBig;
+    }
     if std::str::from_utf8(bytes).is_err() {
         // undecodable bytes cannot be part of a well-formed file.  Decoded lossily they become
         // garbage characters: if they sit in a header or attack line that line is ill-formed in a
@@ -1265,7 +1340,34 @@ pub fn corrupt(rng: &mut Rng, input: &[u8]) -> Vec<u8> {
         b"\xd9\xa3", b"\xc2\xa0", b"\xe2\x80\xa8", b"x", b"_", b"18446744073709551616", b"-1", b"0 0", b"1 1",
     ];
     for _ in 0..rng.range(1, 4) {
-        match rng.below(8) {
+        match rng.below(10) {
+            8 if !b.is_empty() => {
+                // one ASCII character replaced by a well-formed multi-byte one (2, 3 or 4 bytes): the text
+                // stays valid UTF-8 but byte offsets no longer are character offsets
+                let i = rng.below(b.len());
+                if b[i] < 0x80 && b[i] != b'\n' {
+                    let m: &[u8] = *rng.pick(&["\u{e9}".as_bytes(), "\u{20ac}".as_bytes(), "\u{1d11e}".as_bytes()]);
+                    b.splice(i..i + 1, m.iter().copied());
+                }
+            }
+            9 => {
+                // a decimal token replaced by the same value plus a multiple of 2^64 (or of 2^32): out of
+                // range for any declared size, equal to the original after a wrap-around
+                let mut lines: Vec<Vec<u8>> = b.split(|c| *c == b'\n').map(|l| l.to_vec()).collect();
+                let li = rng.below(lines.len().max(1));
+                if let Some(line) = lines.get_mut(li) {
+                    let mut toks: Vec<Vec<u8>> = line.split(|c| *c == b' ').map(|t| t.to_vec()).collect();
+                    let idx: Vec<usize> = (0..toks.len()).filter(|i| !toks[*i].is_empty() && toks[*i].iter().all(|c| c.is_ascii_digit()) && toks[*i].len() < 15).collect();
+                    if !idx.is_empty() {
+                        let i = *rng.pick(&idx);
+                        let v: u128 = std::str::from_utf8(&toks[i]).unwrap().parse().unwrap_or(1);
+                        let big: u128 = v + (*rng.pick(&[1u128 << 64, 1u128 << 32, 3u128 << 64, 1u128 << 63])) * (1 + rng.below(2) as u128);
+                        toks[i] = big.to_string().into_bytes();
+                        *line = toks.join(&b' ');
+                        b = lines.join(&b'\n');
+                    }
+                }
+            }
             0 if !b.is_empty() => {
                 let i = rng.below(b.len());
                 b[i] ^= 1 << rng.below(8);
@@ -1533,6 +1635,9 @@ fn judge_text(ctx: &mut Ctx, iccma: bool, class: &str, bytes: &[u8], listed_cat:
 
 fn check_read_arg(ctx: &mut Ctx, iccma: bool, bytes: &[u8], rng: &mut Rng) {
     // read_arg_from_str must agree with label / 1-based index lookup
+    if iccma && ref_parse_iccma(bytes) == RefParse::TooBig {
+        return;
+    }
     if iccma {
         let reader = Iccma23Reader::default();
         if let Ok(af) = reader.read(&mut &bytes[..]) {
@@ -1608,6 +1713,11 @@ fn check_read_arg(ctx: &mut Ctx, iccma: bool, bytes: &[u8], rng: &mut Rng) {
 }
 
 fn check_cli(ctx: &mut Ctx, iccma: bool, bytes: &[u8], idx: u64) {
+    // (the property is about declared sizes that fit in memory: a corrupted header may declare billions)
+    if iccma && ref_parse_iccma(bytes) == RefParse::TooBig {
+        ctx.count("skipped/declared-size-above-cap");
+        return;
+    }
     // `crustabri check` exit status must agree with the library result
     let dir = ctx.out_dir.join(format!("files-{}", ctx.shard));
     let _ = std::fs::create_dir_all(&dir);
@@ -1858,13 +1968,26 @@ fn eval_c14_framework(ctx: &mut Ctx, rng: &mut Rng) {
     // a framework produced by a store history over identifier labels
     let len = if rng.pct(8) { rng.range(120, 400) } else { rng.range(5, 50) };
     let raw: Vec<Op<usize>> = gen_store_ops::<usize>(rng, len);
+    // one framework in forty has a label of 8-20 KiB (a declaration line longer than any batch buffer)
+    let long: Option<(usize, String)> = if rng.pct(3) {
+        ctx.count("frameworks_with_a_label_above_8KiB");
+        Some((rng.below(4) + 1, format!("L{}", "y".repeat(rng.range(8_000, 20_000)))))
+    } else {
+        None
+    };
+    let name = |k: usize| -> String {
+        match &long {
+            Some((lk, l)) if *lk == k => l.clone(),
+            _ => ident_label(k),
+        }
+    };
     let ops: Vec<Op<String>> = raw
         .iter()
         .map(|o| match o {
-            Op::AddArg(a) => Op::AddArg(ident_label(*a)),
-            Op::DelArg(a) => Op::DelArg(ident_label(*a)),
-            Op::AddAtt(a, b) => Op::AddAtt(ident_label(*a), ident_label(*b)),
-            Op::DelAtt(a, b) => Op::DelAtt(ident_label(*a), ident_label(*b)),
+            Op::AddArg(a) => Op::AddArg(name(*a)),
+            Op::DelArg(a) => Op::DelArg(name(*a)),
+            Op::AddAtt(a, b) => Op::AddAtt(name(*a), name(*b)),
+            Op::DelAtt(a, b) => Op::DelAtt(name(*a), name(*b)),
         })
         .collect();
     let built = catch(|| {
@@ -2097,10 +2220,24 @@ fn eval_c14_answers(ctx: &mut Ctx, rng: &mut Rng) {
     }
     // Aspartix writer over string labels
     {
-        let labels: Vec<String> = (0..n).map(|i| ident_label(i * 3 + rng.below(3))).collect();
+        let mut labels: Vec<String> = (0..n).map(|i| ident_label(i * 3 + rng.below(3))).collect();
+        if n >= 2 && n <= 9 && rng.pct(3) {
+            // one label of 8-20 KiB (longer than any line buffer a writer might keep)
+            let i = rng.below(n);
+            labels[i] = format!("L{}", "x".repeat(rng.range(8_000, 20_000)));
+            ctx.count("extensions_with_a_label_above_8KiB");
+        }
         let aset = ArgumentSet::new_with_labels(&labels);
+        // a second argument set with other labels (and therefore overlapping ids): an extension may
+        // gather arguments of several frameworks, e.g. the union of the answers for independent parts
+        let labels2: Vec<String> = (0..n.min(6)).map(|i| format!("other_{}", i)).collect();
+        let aset2 = ArgumentSet::new_with_labels(&labels2);
         let keep = if n > 9 { 90 } else { 50 };
         let mut chosen: Vec<&Argument<String>> = aset.iter().filter(|_| rng.pct(keep)).collect();
+        if n >= 1 && n <= 9 && rng.pct(10) {
+            chosen.extend(aset2.iter().filter(|_| rng.pct(60)));
+            ctx.count("extensions_mixing_two_argument_sets");
+        }
         rng.shuffle(&mut chosen);
         let expect: Vec<String> = chosen.iter().map(|a| a.label().clone()).collect();
         let case = json!({"kind": "apx-extension", "n_labels": expect.len(), "labels_prefix": expect.iter().take(20).collect::<Vec<_>>()});
